@@ -56,7 +56,7 @@ pub fn valid_addr(s: &str) -> bool {
 }
 
 pub fn restricted(w: &World, d: &str) -> bool {
-    w.chain.markers.get(d).copied() == Some(MarkerKind::Restricted)
+    matches!(w.chain.markers.get(d).copied(), Some(MarkerKind::Restricted) | Some(MarkerKind::RestrictedFinalized))
 }
 pub fn marker_of(w: &World, d: &str) -> MarkerKind {
     w.chain.markers.get(d).copied().unwrap_or(MarkerKind::NoMarker)
@@ -413,11 +413,8 @@ pub fn match_verdict(cfg: &Cfg, book: &Book, sender: &str, funds: &[(String, u12
                 dom = false;
                 why = "bid fee due but no bid fee account configured";
             }
-            // pro-rata quotient exact only while F*Q is small (KF1)
-            if w(fa) * w(q) >= w(250_000_000_000_000_000_000_000_000u128) {
-                dom = false;
-                why = "fee*quote beyond the exact pro-rata domain";
-            }
+            // (beyond F*Q ~ 2.5e26 the pro-rata AMOUNTS are judged with the KF1 window, but acceptance
+            // itself does not depend on them: the computed target is monotone in the unspent quote)
             // the held fee must be able to cover what the formula asks for
             if prorata_set(fa, rq - gross, q).into_iter().all(|v| v > h) {
                 dom = false;
@@ -730,6 +727,9 @@ pub fn rates_equal(a: &Option<FeeCfg>, b: &Option<FeeCfg>) -> bool {
     match (a, b) {
         (None, None) => true,
         (Some(x), Some(y)) => match (parse_dec(&x.rate), parse_dec(&y.rate)) {
+            // strings beyond 28 significant digits are in the gray zone (DESIGN section 4): a 96-bit
+            // decimal cannot tell them apart from their rounding, so their equality is not judged
+            (Some(p), Some(q)) if p.form == Form::Gray || q.form == Form::Gray => true,
             (Some(p), Some(q)) => p.eq_val(&q),
             _ => x.rate == y.rate,
         },
